@@ -59,8 +59,9 @@ PROP = dict(
                  "hypothesis full_ok (inline target = first input class with one replacement per glyph, no self-contradicting inline "
                  "rule, contextual rules name earlier lookups only) holds of what elab produces from accepted files; this is not "
                  "proved about elab",
-                 "the model is parametrised by six repair flags (numeric range end, by-NULL promotion, empty named lookup in a "
-                 "contextual rule, three inline-rule repairs) which the harness probes on fixed inputs on every run and prints "
+                 "the model is parametrised by eight flags (numeric range end, by-NULL promotion, empty named lookup in a "
+                 "contextual rule, lookup reference closes the running lookup, named block mixing multiple and ligature rules is "
+                 "rejected, three inline-rule repairs) which the harness probes on fixed inputs on every run and prints "
                  "into every term, so the same check runs on the repaired and on the unrepaired tree and reports the same keys",
                  "script/language fallback of shapers (DFLT, default LangSys for unknown languages), required features, "
                  "HarfBuzz's 64-level nesting and context-length limits, RightToLeft, overlapping MarkAttachmentType classes (GDEF gives a "
